@@ -28,6 +28,7 @@ type pingSpec struct {
 	sendErr bool
 	// arrival plan
 	matchAt time.Duration // <0: no matching reply
+	ipopts  bool          // IPv4 only: the peer's datagrams carry IP options
 	extras  []pingExtra
 	// results
 	id   uint16
@@ -59,7 +60,15 @@ func echoFrame(nic mon.NIC, p *pingSpec, typ4, typ6 byte, id uint16, truncate bo
 	if truncate {
 		msg = msg[:6]
 	}
-	return refdec.Ether(host, p.dmac, 0x0800, 0, refdec.IP4(refdec.IP4Hdr{TTL: 64, Proto: 1, Src: p.dst, Dst: nic.HostIP}, msg))
+	h := refdec.IP4Hdr{TTL: 64, Proto: 1, Src: p.dst, Dst: nic.HostIP}
+	if p.ipopts {
+		// the peer's datagrams carry IPv4 options (record route / timestamp pings, or just padding): the ICMP message starts
+		// at 4 x IHL. The option bytes are chosen to look like the echo reply this ping waits for (type 0, code 0, checksum,
+		// identifier, sequence 1) to whoever reads the ICMP header at the wrong place; 0 is also the end-of-options octet.
+		h.TOS, h.ID = 0xb8, id^0x5aa5
+		h.Options = []byte{0, 0, 0x12, 0x34, byte(p.id >> 8), byte(p.id), 0, 1}
+	}
+	return refdec.Ether(host, p.dmac, 0x0800, 0, refdec.IP4(h, msg))
 }
 
 func c19Scenario(c *wk.Ctx, idx int64, r *rand.Rand) (nontrivial string, viol bool) {
@@ -95,6 +104,7 @@ func c19Scenario(c *wk.Ctx, idx int64, r *rand.Rand) (nontrivial string, viol bo
 			p.eff = 2 * time.Second
 		}
 		p.sendErr = r.Intn(10) == 0
+		p.ipopts = !p.v6 && r.Intn(3) == 0
 		p.matchAt = -1
 		switch r.Intn(5) {
 		case 4:
@@ -121,7 +131,7 @@ func c19Scenario(c *wk.Ctx, idx int64, r *rand.Rand) (nontrivial string, viol bo
 	cs := func() map[string]any {
 		var ps []string
 		for _, p := range pings {
-			ps = append(ps, fmt.Sprintf("{v6=%v dst=%v timeout=%v sendErr=%v matchAt=%v extras=%v -> id=%d err=%v returned@%v}", p.v6, p.dst, p.timeout, p.sendErr, p.matchAt, p.extras, p.id, p.err, p.done))
+			ps = append(ps, fmt.Sprintf("{v6=%v dst=%v timeout=%v sendErr=%v ipoptions=%v matchAt=%v extras=%v -> id=%d err=%v returned@%v}", p.v6, p.dst, p.timeout, p.sendErr, p.ipopts, p.matchAt, p.extras, p.id, p.err, p.done))
 		}
 		return map[string]any{"index": idx, "pings": ps}
 	}
